@@ -409,6 +409,92 @@ def check_k1(rep, idx):
                 rep.violation(Finding("K1", d.qname, "%s.%s" % (pname, member), why, f, l))
 
 
+def check_k3(rep, idx):
+    """who may write a Bundle output block: only the part's own operation (or the constant fill tabled for commutative parts)"""
+    rep.rule("K3", "BundleImpl: every output sub-block is produced by PartImpl<i>::<same op> (or the tabled constant fill for commutative parts)", minimum=15)
+    CONST_FILL = {"Ad": {"setIdentity"}, "dr_exp": {"setIdentity"}, "dr_expinv": {"setIdentity"}}
+    WHOLE = {"setZero"}       # whole-output initialisation before the per-part loop
+    fns = [d for d in idx if d.kind in A.FUNCS and d.pattern and d.qname.startswith("BundleImpl::") and d.file and d.file.startswith(fe.INCLUDE)]
+    for d in fns:
+        opname = d.qname.split("::")[-1]
+        outs = {p.get("name") for p in A.params(d.node) if p.get("type", {}).get("qualType", "") in ("GRefOut", "TRefOut", "MRefOut", "TMapRefOut", "THessRefOut")}
+        if not outs:
+            continue
+        b = A.body(d.node)
+        parents = {}
+        for p in A.walk(b):
+            for c in A.kids(p):
+                parents[id(c)] = p
+        # locals filled by the part's own operation
+        produced = set()
+        for x in A.walk(b):
+            if x.get("kind") == "CallExpr" and A.ntext(A.kids(x)[0]) == "PartImpl<i>::%s" % opname:
+                for a in A.kids(x)[1:]:
+                    e = A.to_expr(a)
+                    if e[0] == "ref":
+                        produced.add(e[1])
+        for x in A.walk(b):
+            if x.get("kind") != "CallExpr":
+                continue
+            cal = A.strip(A.kids(x)[0])
+            if cal.get("kind") != "CXXDependentScopeMemberExpr":
+                continue
+            base = A.strip(A.kids(cal)[0]) if A.kids(cal) else {}
+            if base.get("kind") != "DeclRefExpr" or base.get("referencedDecl", {}).get("name") not in outs:
+                continue
+            member = cal.get("member")
+            f, l = A.loc(x)
+            par = parents.get(id(x))
+            while par is not None and par.get("kind") in A.TRANSPARENT:
+                par = parents.get(id(par))
+            verdict = None
+            if member in WHOLE and not A.kids(x)[1:]:
+                verdict = "whole-output " + member
+                ok = par is None or par.get("kind") == "CompoundStmt"
+            elif member in ("segment", "block", "middleCols"):
+                ok = False
+                if par is not None and par.get("kind") == "CallExpr" and A.ntext(A.kids(par)[0]) == "PartImpl<i>::%s" % opname:
+                    verdict, ok = "argument of PartImpl<i>::%s" % opname, True
+                elif par is not None and par.get("kind") in ("CXXDependentScopeMemberExpr", "MemberExpr"):
+                    m2 = par.get("member") or par.get("name")
+                    verdict = "constant fill .%s()" % m2
+                    ok = m2 in CONST_FILL.get(opname, set())
+                    # only for commutative parts: must sit in the else-branch of `if constexpr (!PartImpl<i>::IsCommutative)`
+                    cur = par
+                    guarded = False
+                    while id(cur) in parents:
+                        pp = parents[id(cur)]
+                        if pp.get("kind") == "IfStmt":
+                            pk = A.kids(pp)
+                            ct = A.ntext(pk[0])
+                            if ct == "!PartImpl<i>::IsCommutative" and len(pk) > 2 and cur is pk[2]:
+                                guarded = True
+                            elif ct == "PartImpl<i>::IsCommutative" and cur is pk[1]:
+                                guarded = True
+                            break
+                        cur = pp
+                    if ok and not guarded:
+                        ok = False
+                        verdict += " not restricted to commutative parts"
+                elif par is not None and par.get("kind") in ("BinaryOperator", "CXXOperatorCallExpr"):
+                    e = A.to_expr(par)
+                    if e[0] == "op" and e[1] == "=":
+                        rhs_refs = A.refs(e[3])
+                        verdict = "assigned from %s" % A.show(e[3])[:50]
+                        ok = bool(rhs_refs & produced) and not (rhs_refs & {p.get("name") for p in A.params(d.node)})
+                    else:
+                        verdict = "operator %s" % (e[1] if e[0] == "op" else "?")
+                else:
+                    verdict = "used in %s" % (par.get("kind") if par else None)
+            else:
+                continue
+            rep.instance("K3", d.qname, "%s@%s" % (member, verdict), ok=ok, sample={"file": fe.rel(f), "line": l, "use": verdict})
+            if not ok:
+                rep.violation(Finding("K3", d.qname, member,
+                                      "output block `%s` of Bundle %s is %s; a Bundle operation must be the tuple of the parts' own operation "
+                                      "(PartImpl<i>::%s), not a re-implementation or a copy of the input" % (A.text(x)[:60], opname, verdict, opname), f, l))
+
+
 def check(rep, tier, replay=None):
     rep.explanations.append(
         "C06: K1 types every index expression of the BundleImpl template pattern (holds for all compositions); B1/B2 read "
@@ -424,3 +510,4 @@ def check(rep, tier, replay=None):
     objs = fe.ast_dump("BundleImpl")
     rep.unit("umbrella TU filtered BundleImpl")
     check_k1(rep, A.index(objs))
+    check_k3(rep, A.index(objs))
